@@ -270,16 +270,16 @@ theorem only_these_emit (c : Cfg) (s : State) (op : Op) (r d : Addr) (q : Bytes)
     outbound TCP connect target of every allocation is a peer the operator's permission handler
     granted to that listener, and permissions and bindings are of the allocation's address family. -/
 theorem policy_inv {c : Cfg} {s : State} (hr : Reach c s) : ∀ a ∈ s.allocs,
-    (∀ p ∈ a.perms, granted c a.key.lid p.ip = true ∧ famOK p.ip a.fam = true) ∧
-    (∀ ch ∈ a.chans, granted c a.key.lid ch.peer.ip = true ∧ famOK ch.peer.ip a.fam = true) ∧
-    (∀ t ∈ a.conns, t.inbound = false → granted c a.key.lid t.peer.ip = true) :=
+    (∀ p ∈ a.perms, granted c a.key p.ip = true ∧ famOK p.ip a.fam = true) ∧
+    (∀ ch ∈ a.chans, granted c a.key ch.peer.ip = true ∧ famOK ch.peer.ip a.fam = true) ∧
+    (∀ t ∈ a.conns, t.inbound = false → granted c a.key t.peer.ip = true) :=
   reach_inv (policy_point c) hr
 
 /-- a peer address the operator's permission handler refuses never receives relayed data: from the
     empty server, no history makes any client's Send or ChannelData reach it -/
 theorem refused_never_receives {c : Cfg} (hc : CfgOK c) {s : State} (hr : Reach c s) (op : Op) (r d : Addr) (q : Bytes)
     (h : Out.toPeer r d q ∈ (step c s op).2) :
-    ∃ k sz m, op = .msg k sz m ∧ granted c k.lid d.ip = true := by
+    ∃ k sz m, op = .msg k sz m ∧ granted c k d.ip = true := by
   obtain ⟨k, sz, ⟨data, peer, rfl⟩ | ⟨raw, rfl⟩⟩ := only_these_emit c s op r d q h
   · obtain ⟨a, ha, _, _, _, _, p, hp, hpi, _⟩ := send_gated hc hr k sz data peer r d q h
     have := (policy_inv hr a (findAlloc_some ha).1).1 p hp
@@ -294,7 +294,7 @@ theorem refused_never_receives {c : Cfg} (hc : CfgOK c) {s : State} (hr : Reach 
 theorem dial_granted (c : Cfg) (s : State) (k : Key) (sz tid : Nat) (cr : Cred) (peer : Attr Addr) (dialOK : Bool)
     (cid : Nat) (r d : Addr) (n : Nat)
     (h : Out.dial r d n ∈ (step c s (.msg k sz (.connect tid cr peer dialOK cid))).2) :
-    granted c k.lid d.ip = true := by
+    granted c k d.ip = true := by
   simp only [step] at h
   split at h; · simp at h
   split at h; · simp at h
@@ -317,7 +317,7 @@ theorem dial_granted (c : Cfg) (s : State) (k : Key) (sz tid : Nat) (cr : Cred) 
 def cfg0 : Cfg :=
   { permT := 300 * sec, chanT := 600 * sec, lifeT := 600 * sec, maxLife := 3600 * sec, rtpMTU := 1600
     inMTU := 1600, bindT := 30 * sec, resvT := 30 * sec, strict := false, hasAuth := true, hasQuota := false
-    relay4 := ⟨false, 1⟩, relay6 := ⟨true, 1⟩, lis := [⟨false, 1, false, [⟨false, 99⟩]⟩] }
+    relay4 := ⟨false, 1⟩, relay6 := ⟨true, 1⟩, lis := [⟨false, 1, false, [⟨false, 99⟩], []⟩] }
 def okCred : Cred := ⟨true, true, true, true, true, true, true, "alice"⟩
 def k0 : Key := ⟨0, ⟨⟨false, 7⟩, 4000⟩⟩
 def peer0 : Addr := ⟨⟨false, 9⟩, 9000⟩
